@@ -303,3 +303,60 @@ def opensystem_thermal_rdm(cx, N):
     cx.prove_eq("hermitian", data, numpy.conj(data.T))
     cx.prove_eq("trace", numpy.trace(data), 1)
     cx.prove_eq("H_restored", ham._data, H)
+
+
+@harness("C14", "units_context_independence",
+         quick=[dict(what="aggregate_strong", units="1/cm"), dict(what="opensystem", units="1/cm"),
+                dict(what="aggregate_thermal", units="eV")],
+         thorough=[dict(what=w_, units=u) for w_ in ("aggregate_strong", "aggregate_thermal", "aggregate_weak", "opensystem")
+                   for u in ("1/cm", "eV", "THz")],
+         functions=[F_AB + ":AggregateBase.get_DensityMatrix", F_AB + ":AggregateBase._thermal_population",
+                    "quantarhei/builders/opensystem.py:OpenSystem.get_thermal_ReducedDensityMatrix"],
+         bound="dimer aggregate (symbolic single-exciton Hamiltonian / Hamiltonian given by its eigen-decomposition), "
+               "T > 0 symbolic: the thermal state, the thermal excited state (weak and strong coupling) and the "
+               "OpenSystem thermal reduced density matrix requested inside an energy-units context equal the ones "
+               "requested outside (the Boltzmann ratios are those of the internal energies)",
+         out="")
+def units_context_independence(cx, what, units):
+    import types
+    import quantarhei as qr
+    from quantarhei.builders.opensystem import OpenSystem
+    T = cx.real("T", 50.0, 400.0)
+    cx.assume(T >= 50, "temperature in [50, 400] K, level spacings in [0.01, 0.2] rad/fs (no underflow, no degeneracy: "
+                       "the Boltzmann factors are generic numbers)")
+    cx.assume(T <= 400)
+
+    def generic(levels):
+        for a, b in zip(levels[:-1], levels[1:]):
+            cx.assume(b - a >= 0.01)
+            cx.assume(b - a <= 0.2)
+    if what == "opensystem":
+        N = 2
+        H, w, S = spectral_hamiltonian(cx, N)
+        generic(list(w))
+        with cx.concrete():
+            ham = qr.Hamiltonian(data=numpy.diag(numpy.arange(N, dtype=float)))
+        ham._data = H.copy()
+        me = types.SimpleNamespace(get_Hamiltonian=lambda: ham, get_temperature=lambda: T)
+        call = lambda: OpenSystem.get_thermal_ReducedDensityMatrix(me).data
+    else:
+        agg = build_aggregate(cx, 2)
+        if what == "aggregate_strong":
+            Hs = _symbolic_frenkel(cx, agg, window=False)
+            generic([Hs[i, i] for i in range(1, agg.HamOp.dim)])
+            call = lambda: agg.get_DensityMatrix(condition_type="thermal_excited_state",
+                                                 relaxation_theory_limit="strong_coupling", temperature=T)._data
+        else:
+            N = agg.HamOp.dim
+            H, w, S = spectral_hamiltonian(cx, N, block=[[0], list(range(1, N))])
+            generic(list(w))
+            agg.HamOp._data = H.copy()
+            cond = "thermal" if what == "aggregate_thermal" else "thermal_excited_state"
+            call = lambda: agg.get_DensityMatrix(condition_type=cond, relaxation_theory_limit="weak_coupling",
+                                                 temperature=T)._data
+    outside = numpy.array(call()).copy()
+    with qr.energy_units(units):
+        inside = numpy.array(call()).copy()
+    cx.assume_denominators_nonzero("partition sums > 0")
+    cx.prove_eq("trace_outside", numpy.trace(outside), 1)
+    cx.prove_eq("same_state_inside_units_context", inside, outside, tol=1e-9)
